@@ -137,13 +137,6 @@ fn checkpoint(vm: VM<StdLibState>, fmt: Fmt) -> Result<VM<StdLibState>, String> 
     }
 }
 
-fn bc<T: serde::Serialize>(x: &T) -> String {
-    match bincode::serde::encode_to_vec(x, bincode::config::standard()) {
-        Ok(v) => format!("{:016x}.{}", fxhash_bytes(&v), v.len()),
-        Err(e) => format!("unserialisable:{e}"),
-    }
-}
-
 fn fxhash_bytes(b: &[u8]) -> u64 {
     let mut h: u64 = 0xcbf29ce484222325;
     for x in b {
@@ -153,53 +146,161 @@ fn fxhash_bytes(b: &[u8]) -> u64 {
     h
 }
 
-/// The visible command map, canonical: cs id → command, macro indices replaced by the macro.
-fn canon_cmds(vm: &VM<StdLibState>) -> String {
-    let v = serde_json::to_value(&vm.commands_map).unwrap_or(serde_json::Value::Null);
-    let macros = v.get("macros").and_then(|m| m.as_array()).cloned().unwrap_or_default();
-    let mut out: BTreeMap<String, String> = BTreeMap::new();
-    for field in ["commands", "active_char"] {
-        let Some(bcont) = v.get(field).and_then(|c| c.get("backing_container")).and_then(|b| b.as_object()) else {
-            continue;
-        };
-        for (k, c) in bcont {
-            let s = match c.get("Macro").and_then(|u| u.as_u64()) {
-                Some(u) => format!("Macro:{}", macros.get(u as usize).map(|m| m.to_string()).unwrap_or_default()),
-                None => c.to_string(),
-            };
-            out.insert(format!("{field}.{k}"), s);
-        }
-    }
-    let mut s = String::new();
-    for (k, c) in out {
-        s.push_str(&k);
-        s.push('=');
-        s.push_str(&c);
-        s.push(';');
+fn debug() -> bool {
+    std::env::var("C08_DEBUG").is_ok()
+}
+
+fn digest(s: String) -> String {
+    if debug() && s.len() < 6000 {
+        return s;
     }
     format!("{:016x}.{}", fxhash(&s), s.len())
 }
 
-/// Final state: one digest per component (everything but `time`, which is the wall clock).
-fn final_state(vm: &VM<StdLibState>) -> BTreeMap<String, String> {
+/// Digest of a big plain array (registers): bincode bytes (no maps, no names inside).
+fn big<T: serde::Serialize>(x: &T) -> String {
+    match bincode::serde::encode_to_vec(x, bincode::config::standard()) {
+        Ok(v) => format!("{:016x}.{}", fxhash_bytes(&v), v.len()),
+        Err(e) => format!("unserialisable:{e}"),
+    }
+}
+
+/// Interned key → name, from the serialised interner (keys are 1-based positions in `ends`).
+struct Names {
+    buffer: String,
+    ends: Vec<usize>,
+}
+
+impl Names {
+    fn of(vm: &VM<StdLibState>) -> Names {
+        let v = serde_json::to_value(vm.cs_name_interner()).unwrap_or(serde_json::Value::Null);
+        Names {
+            buffer: v["buffer"].as_str().unwrap_or("").to_string(),
+            ends: v["ends"].as_array().map(|a| a.iter().filter_map(|x| x.as_u64()).map(|x| x as usize).collect()).unwrap_or_default(),
+        }
+    }
+    fn resolve(&self, k: u64) -> String {
+        let k = k as usize;
+        if k == 0 || k > self.ends.len() {
+            return format!("<key {k}>");
+        }
+        let start = if k == 1 { 0 } else { self.ends[k - 2] };
+        self.buffer[start..self.ends[k - 1]].to_string()
+    }
+    fn key_of(&self, name: &str) -> Option<u64> {
+        (1..=self.ends.len() as u64).find(|&k| self.resolve(k) == name)
+    }
+}
+
+/// Canonical JSON: interned keys of control sequences replaced by their names, trace keys
+/// dropped (they identify source positions for error messages, not behaviour).
+fn canon(v: &serde_json::Value, names: &Names) -> serde_json::Value {
+    use serde_json::Value;
+    match v {
+        Value::Object(m) => {
+            let mut out = serde_json::Map::new();
+            for (k, x) in m {
+                if k == "trace_key" {
+                    continue;
+                }
+                if k == "ControlSequence" || k == "BuiltIn" {
+                    if let Some(n) = x.as_u64() {
+                        out.insert(k.clone(), Value::String(names.resolve(n)));
+                        continue;
+                    }
+                }
+                if k == "VariableArrayStatic" {
+                    if let Some(a) = x.as_array() {
+                        if let (Some(n), Some(i)) = (a.first().and_then(|n| n.as_u64()), a.get(1)) {
+                            out.insert(k.clone(), Value::Array(vec![Value::String(names.resolve(n)), i.clone()]));
+                            continue;
+                        }
+                    }
+                }
+                out.insert(k.clone(), canon(x, names));
+            }
+            Value::Object(out)
+        }
+        Value::Array(a) => Value::Array(a.iter().map(|x| canon(x, names)).collect()),
+        x => x.clone(),
+    }
+}
+
+fn small<T: serde::Serialize>(x: &T, names: &Names) -> String {
+    match serde_json::to_value(x) {
+        Ok(v) => digest(canon(&v, names).to_string()),
+        Err(e) => format!("unserialisable:{e}"),
+    }
+}
+
+/// The visible command map, canonical: name → command, macro indices replaced by the macro.
+fn canon_cmds(vm: &VM<StdLibState>, names: &Names) -> String {
+    let v = serde_json::to_value(&vm.commands_map).unwrap_or(serde_json::Value::Null);
+    let macros = v.get("macros").and_then(|m| m.as_array()).cloned().unwrap_or_default();
+    let mut out: BTreeMap<String, String> = BTreeMap::new();
+    let Some(bcont) = v.get("commands").and_then(|c| c.get("backing_container")).and_then(|b| b.as_object()) else {
+        return "no commands".into();
+    };
+    for (k, c) in bcont {
+        let s = match c.get("Macro").and_then(|u| u.as_u64()) {
+            Some(u) => format!("Macro:{}", macros.get(u as usize).map(|m| canon(m, names).to_string()).unwrap_or_default()),
+            None => canon(c, names).to_string(),
+        };
+        out.insert(names.resolve(k.parse().unwrap_or(0)), s);
+    }
+    let mut s = String::new();
+    for (k, c) in out {
+        s.push_str(&format!("{k}={c};"));
+    }
+    digest(s)
+}
+
+/// The active characters (code points 0..=255) through the public API of the command map.
+fn canon_active(vm: &VM<StdLibState>, names: &Names) -> String {
+    use texlang::command::Command;
+    let mut s = String::new();
+    for c in (0u32..256).filter_map(char::from_u32) {
+        let r = texlang::token::CommandRef::ActiveCharacter(c);
+        if let Some(cmd) = vm.commands_map.get_command(&r) {
+            let d = match cmd {
+                Command::Expansion(..) => "expansion".to_string(),
+                Command::Execution(..) => "execution".to_string(),
+                Command::Variable(..) => "variable".to_string(),
+                Command::Macro(m) => format!("macro:{}", serde_json::to_value(&**m).map(|v| canon(&v, names).to_string()).unwrap_or_default()),
+                Command::CharacterTokenAlias(v) => format!("token:{}", serde_json::to_value(v).map(|v| canon(&v, names).to_string()).unwrap_or_default()),
+                Command::Character(c) => format!("char:{}", *c as u32),
+                Command::MathCharacter(_) => "mathchar".to_string(),
+                Command::Font(_) => "font".to_string(),
+            };
+            s.push_str(&format!("{}={d};", c as u32));
+        }
+    }
+    digest(s)
+}
+
+/// The state: one digest per component (everything but `time`, which is the wall clock, and
+/// `script`, whose only serialisable content is nothing).
+fn state_digests(vm: &VM<StdLibState>) -> BTreeMap<String, String> {
+    let names = Names::of(vm);
     let s = &vm.state;
     let mut m = BTreeMap::new();
-    m.insert("alloc".into(), bc(&s.alloc));
-    m.insert("catcode".into(), bc(&s.codes_cat_code));
-    m.insert("mathcode".into(), bc(&s.codes_math_code));
-    m.insert("conditional".into(), bc(&s.conditional));
-    m.insert("endlinechar".into(), bc(&s.end_line_char));
-    m.insert("errormode".into(), bc(&s.error_mode));
-    m.insert("input".into(), bc(&s.input));
-    m.insert("job".into(), bc(&s.job));
-    m.insert("prefix".into(), bc(&s.prefix));
-    m.insert("count".into(), bc(&s.registers_i32));
-    m.insert("dimen".into(), bc(&s.registers_scaled));
-    m.insert("skip".into(), bc(&s.registers_glue));
-    m.insert("toks".into(), bc(&s.registers_token_list));
-    m.insert("repl".into(), bc(&s.repl));
-    m.insert("tracingmacros".into(), bc(&s.tracing_macros));
-    m.insert("commands".into(), canon_cmds(vm));
+    m.insert("alloc".into(), small(&s.alloc, &names));
+    m.insert("catcode".into(), small(&s.codes_cat_code, &names));
+    m.insert("mathcode".into(), small(&s.codes_math_code, &names));
+    m.insert("conditional".into(), small(&s.conditional, &names));
+    m.insert("endlinechar".into(), small(&s.end_line_char, &names));
+    m.insert("errormode".into(), small(&s.error_mode, &names));
+    m.insert("input".into(), small(&s.input, &names));
+    m.insert("job".into(), small(&s.job, &names));
+    m.insert("prefix".into(), small(&s.prefix, &names));
+    m.insert("count".into(), big(&s.registers_i32));
+    m.insert("dimen".into(), big(&s.registers_scaled));
+    m.insert("skip".into(), big(&s.registers_glue));
+    m.insert("toks".into(), small(&s.registers_token_list, &names));
+    m.insert("repl".into(), small(&s.repl, &names));
+    m.insert("tracingmacros".into(), small(&s.tracing_macros, &names));
+    m.insert("commands".into(), canon_cmds(vm, &names));
+    m.insert("active-characters".into(), canon_active(vm, &names));
     m
 }
 
@@ -207,6 +308,8 @@ fn final_state(vm: &VM<StdLibState>) -> BTreeMap<String, String> {
 struct Obs {
     r1: Run,
     ck: Option<String>, // the checkpoint panicked
+    /// the state right after the checkpoint (for A: right after P1)
+    mid: BTreeMap<String, String>,
     r2: Option<Run>,
     fin: BTreeMap<String, String>,
 }
@@ -214,16 +317,18 @@ struct Obs {
 fn run_pair(p1: &str, p2: &str, fmt: Fmt) -> Obs {
     let mut vm = new_vm();
     let r1 = run_src(&mut vm, "p1.tex", p1);
+    let none = BTreeMap::new;
     if !matches!(r1, Run::Ok(_)) {
-        return Obs { r1, ck: None, r2: None, fin: BTreeMap::new() };
+        return Obs { r1, ck: None, mid: none(), r2: None, fin: none() };
     }
     let mut vm = match checkpoint(vm, fmt) {
         Ok(vm) => vm,
-        Err(p) => return Obs { r1, ck: Some(p), r2: None, fin: BTreeMap::new() },
+        Err(p) => return Obs { r1, ck: Some(p), mid: none(), r2: None, fin: none() },
     };
+    let mid = caught(|| state_digests(&vm)).unwrap_or_default();
     let r2 = run_src(&mut vm, "p2.tex", p2);
-    let fin = caught(|| final_state(&vm)).unwrap_or_default();
-    Obs { r1, ck: None, r2: Some(r2), fin }
+    let fin = caught(|| state_digests(&vm)).unwrap_or_default();
+    Obs { r1, ck: None, mid, r2: Some(r2), fin }
 }
 
 /// A and the three B runs, each on its own thread (a VM is not `Send`; its observation is).
@@ -255,8 +360,11 @@ fn obs_words(o: &Obs) -> String {
         }
         (None, None) => w.push("none".into()),
     }
+    for (k, v) in &o.mid {
+        w.push(format!("at-checkpoint.{k}={}", v.replace(' ', "_")));
+    }
     for (k, v) in &o.fin {
-        w.push(format!("{k}={v}"));
+        w.push(format!("final.{k}={}", v.replace(' ', "_")));
     }
     w.join(" ")
 }
@@ -265,19 +373,42 @@ fn strip_ws(s: &str) -> String {
     s.chars().filter(|c| !c.is_whitespace()).collect()
 }
 
-/// Classify the difference between A and B (the identity of the defect).
-fn diff_signature(a: &Obs, b: &Obs) -> Option<(Kind, String, String)> {
+/// Every difference between A and B, each with the identity of the defect it shows.
+fn differences(a: &Obs, b: &Obs) -> Vec<(Kind, String, String)> {
+    let mut out = vec![];
     if let Some(p) = &b.ck {
-        return Some((Kind::ImplPanic, format!("checkpoint panics at {}", strip_msg(p)), p.clone()));
+        out.push((Kind::ImplPanic, format!("checkpoint panics at {}", strip_msg(p)), p.clone()));
+        return out;
     }
-    let (ra, rb) = (a.r2.as_ref()?, b.r2.as_ref()?);
+    let lost: Vec<&str> = a.mid.iter().filter(|(k, v)| b.mid.get(*k) != Some(v)).map(|(k, _)| k.as_str()).collect();
+    if !lost.is_empty() {
+        if debug() {
+            for c in &lost {
+                eprintln!("A.{c} = {}\nB.{c} = {}", a.mid[*c], b.mid[*c]);
+            }
+        }
+        out.push((
+            Kind::ImplVsSpec,
+            format!("state lost at the checkpoint: {}", lost.join(",")),
+            format!(
+                "right after deserialisation the components {lost:?} differ from the serialised VM; then without checkpoint: {:?}, with: {:?}",
+                a.r2, b.r2
+            ),
+        ));
+        return out; // everything after is a consequence
+    }
+    let (Some(ra), Some(rb)) = (a.r2.as_ref(), b.r2.as_ref()) else { return out };
+    if matches!(ra, Run::Panic(_)) {
+        return out; // the uninterrupted VM panics on P2: C09's business, nothing to compare
+    }
     if ra.class() != rb.class() {
         let kind = if matches!(rb, Run::Panic(_)) { Kind::ImplPanic } else { Kind::ImplVsSpec };
-        return Some((
+        out.push((
             kind,
             format!("after the checkpoint: {} without, {} with", ra.class(), rb.class()),
             format!("without checkpoint: {ra:?}; with: {rb:?}"),
         ));
+        return out;
     }
     if ra.out() != rb.out() {
         let sig = if strip_ws(ra.out()) == strip_ws(rb.out()) {
@@ -285,22 +416,22 @@ fn diff_signature(a: &Obs, b: &Obs) -> Option<(Kind, String, String)> {
         } else {
             "output differs"
         };
-        return Some((Kind::ImplVsSpec, sig.into(), format!("without checkpoint: {:?}; with: {:?}", ra.out(), rb.out())));
+        out.push((Kind::ImplVsSpec, sig.into(), format!("without checkpoint: {:?}; with: {:?}", ra.out(), rb.out())));
     }
-    let comps: Vec<&str> = a
-        .fin
-        .iter()
-        .filter(|(k, v)| b.fin.get(*k) != Some(v))
-        .map(|(k, _)| k.as_str())
-        .collect();
+    let comps: Vec<&str> = a.fin.iter().filter(|(k, v)| b.fin.get(*k) != Some(v)).map(|(k, _)| k.as_str()).collect();
     if !comps.is_empty() {
-        return Some((
+        if debug() {
+            for c in &comps {
+                eprintln!("A.{c} = {}\nB.{c} = {}", a.fin[*c], b.fin[*c]);
+            }
+        }
+        out.push((
             Kind::ImplVsSpec,
             format!("final state differs: {}", comps.join(",")),
-            format!("components {:?} of the final state differ (same output {:?})", comps, ra.out()),
+            format!("components {:?} of the final state differ (output {:?})", comps, rb.out()),
         ));
     }
-    None
+    out
 }
 
 fn decode(s: &str) -> String {
@@ -575,7 +706,7 @@ fn gen_val(kind: i64, rng: &mut Rng) -> i64 {
         1 | 2 => *rng.pick(&[0i64, 1, -1, 5, 100, -16000, 16000]),
         3 => rng.range(-9, 99),
         4 => *rng.pick(&[0i64, 7, 9, 11, 12, 13, 14, 15]),
-        5 => *rng.pick(&[0i64, 1, 291, 32767, 32768]),
+        5 => *rng.pick(&[0i64, 1, 291, 32767]),
         _ => 0,
     }
 }
@@ -696,10 +827,10 @@ const FEATURES: &[(&str, &str)] = &[
     (r"\catcode`\@=11 \def\a@b{AT}", r"\a@b \the\catcode`\@"),
     (r"\catcode`\Q=13 \defQ{q!}", r"Q \the\catcode`\Q"),
     (r"\catcode`\~=13 \def~{tilde}", r"~"),
-    (r"\catcode`\~=13 \def\mT{T}\let~=\mT", r"~"),
-    (r"\catcode`\~=13 \chardef~=66 ", r"~"),
-    (r"\catcode`\~=13 \gdef~{gtilde}", r"~"),
-    (r"\catcode`\~=13 \countdef~=5 ~=77 ", r"\the~"),
+    (r"\catcode`\!=13 \def\mT{T}\let!=\mT", r"!"),
+    (r"\catcode`\?=13 \chardef?=66 ", r"?"),
+    (r"\catcode`\_=13 \gdef_{gunder}", r"_"),
+    (r"\catcode`\&=13 \countdef&=5 &=77 ", r"\the&"),
     (r"\endlinechar=-1 ", r"\the\endlinechar"),
     (r"\endlinechar=32 ", r"\the\endlinechar"),
     (r"\toks3={a\relax b#}", r"\the\toks3"),
@@ -795,7 +926,32 @@ fn gen_tex(rng: &mut Rng, size: usize) -> String {
 // The property
 // ------------------------------------------------------------------------------------------
 
-struct C08;
+struct C08 {
+    /// Which of C01's repairs the tree under test has (bit 0 = C01-a, 1 = C01-b, 2 = C01-c):
+    /// probed once, so that the model run by the driver describes this tree's group scoping.
+    variant: Option<u8>,
+}
+
+fn probe_variant() -> u8 {
+    let out = |src: &str| {
+        let mut vm = new_vm();
+        run_src(&mut vm, "probe.tex", src)
+    };
+    let mut v = 0u8;
+    // C01-a: \global inside the inner of two groups must purge the inner group's saved value
+    if out("\\count1=1 {{\\count1=2 \\global\\count1=3 }\\the\\count1}\n") == Run::Ok("3".into()) {
+        v |= 1;
+    }
+    // C01-b: a local definition of an active character ends with its group
+    if out("\\catcode`\\~=13 \\def~{A}{\\def~{B}}~\n") == Run::Ok("A".into()) {
+        v |= 2;
+    }
+    // C01-c: \global\chardef is allowed
+    if out("\\global\\chardef\\x=65 \\x\n") == Run::Ok("A".into()) {
+        v |= 4;
+    }
+    v
+}
 
 impl C08 {
     /// A vs B for the three formats: tags, I vs S failures. Returns A and whether all agree.
@@ -816,24 +972,30 @@ impl C08 {
                 continue;
             }
             let verdict = drv.ask(&format!("same {} | {}", wa, obs_words(b)));
-            let d = diff_signature(&a, b);
-            match (verdict.as_str(), d) {
-                ("1", None) => {}
-                ("0", Some((k, sig, det))) => diffs.push((*f, k, sig, det)),
-                (v, d) => o.fail(
+            let d = differences(&a, b);
+            match (verdict.as_str(), d.is_empty()) {
+                ("1", true) => {}
+                ("0", false) => diffs.extend(d.into_iter().map(|(k, sig, det)| (*f, k, sig, det))),
+                (v, _) => o.fail(
                     Kind::ModelVsSpec,
                     f.name(),
                     "spec verdict and harness diff disagree",
-                    format!("driver said {v}, harness diff {:?}", d.map(|x| x.1)),
+                    format!("driver said {v}, harness differences {:?}", d.iter().map(|x| &x.1).collect::<Vec<_>>()),
                 ),
             }
         }
-        let all_same_sig = diffs.len() == 3 && diffs.iter().all(|d| d.2 == diffs[0].2);
-        for (f, k, sig, det) in &diffs {
-            let sig = if all_same_sig { sig.clone() } else { format!("{sig} [{} only]", f.name()) };
-            o.fail(*k, f.name(), sig, format!("{} checkpoint: {det}", f.name()));
-            if all_same_sig {
-                break;
+        let mut sigs: Vec<String> = diffs.iter().map(|d| d.2.clone()).collect();
+        sigs.sort();
+        sigs.dedup();
+        for sig in sigs {
+            let with: Vec<&(Fmt, Kind, String, String)> = diffs.iter().filter(|d| d.2 == sig).collect();
+            if with.len() == FORMATS.len() {
+                let (f, k, _, det) = with[0];
+                o.fail(*k, "all-formats", sig.clone(), format!("{} (same with the other formats): {det}", f.name()));
+            } else {
+                for (f, k, _, det) in with {
+                    o.fail(*k, f.name(), format!("{sig} [{} only]", f.name()), format!("{}: {det}", f.name()));
+                }
             }
         }
         (a, diffs.is_empty())
@@ -856,7 +1018,7 @@ impl C08 {
         o
     }
 
-    fn run_ops(&self, body: &str, drv: &mut Driver) -> CaseOutcome {
+    fn run_ops(&mut self, body: &str, drv: &mut Driver) -> CaseOutcome {
         let mut o = CaseOutcome::default();
         o.tag("kind:ops");
         let ints = parse_i64s(body);
@@ -864,7 +1026,9 @@ impl C08 {
             o.fail(Kind::ImplVsModel, "case", "malformed case", body);
             return o;
         };
-        let reply = drv.ask(&format!("p {}", join(&ints)));
+        let variant = *self.variant.get_or_insert_with(probe_variant);
+        o.tag(format!("tree-has-C01-fixes:{}{}{}", if variant & 1 != 0 { "a" } else { "-" }, if variant & 2 != 0 { "b" } else { "-" }, if variant & 4 != 0 { "c" } else { "-" }));
+        let reply = drv.ask(&format!("p {variant} {}", join(&ints)));
         let parts: Vec<&str> = reply.split(" | ").collect();
         if parts.len() != 3 {
             o.fail(Kind::ImplVsModel, "driver", "driver rejected the case", reply);
@@ -1020,17 +1184,12 @@ impl C08 {
         }
         // the serialised interner: key k ↦ name
         let interner = &v["internal"]["cs_name_interner"];
-        let buffer = interner["buffer"].as_str().unwrap_or("");
-        let ends: Vec<usize> = interner["ends"].as_array().map(|a| a.iter().filter_map(|x| x.as_u64()).map(|x| x as usize).collect()).unwrap_or_default();
-        let resolve = |k: u64| -> String {
-            let k = k as usize;
-            if k == 0 || k > ends.len() {
-                return format!("<key {k}>");
-            }
-            let start = if k == 1 { 0 } else { ends[k - 2] };
-            buffer[start..ends[k - 1]].to_string()
+        let nm = Names {
+            buffer: interner["buffer"].as_str().unwrap_or("").to_string(),
+            ends: interner["ends"].as_array().map(|a| a.iter().filter_map(|x| x.as_u64()).map(|x| x as usize).collect()).unwrap_or_default(),
         };
-        let key_of = |name: &str| -> Option<u64> { (1..=ends.len() as u64).find(|&k| resolve(k) == name) };
+        let resolve = |k: u64| nm.resolve(k);
+        let key_of = |name: &str| nm.key_of(name);
         let cmds = &v["commands_map"]["commands"]["backing_container"];
         let mut checked = 0;
         for (i, n) in names.iter().enumerate() {
@@ -1280,6 +1439,9 @@ impl Property for C08 {
                 out.push(build(&l1[l1.len() / 2..], &l2));
             }
             for k in 0..l2.len() {
+                if l2.len() == 1 {
+                    break; // keep something to run after the checkpoint
+                }
                 let mut x = l2.clone();
                 x.remove(k);
                 out.push(build(&l1, &x));
@@ -1318,5 +1480,5 @@ impl Property for C08 {
 }
 
 fn main() {
-    run(C08);
+    run(C08 { variant: None });
 }
